@@ -1,31 +1,61 @@
-(* C20 driver: scenario = [ :con <sink 0|1|2> <verbosity 0|1|2> ] [ :opt <run-ignored 0|1> <passes> ] <dur> <nfilters> { <name> } <ntests> { <group> <name> <file> <line> <ignored> <nstmts> { :p <text> | :f <file> <line> <msg> | :x <file> <line> <msg> } }
-   (without the :con prefix: sink 0 = printBuffer overridden, quiet; without the :opt prefix: run-ignored off, one pass)
-   observation = <stream> <n> { <executions of the body of test i in pass p> }  (pass-major, n = passes * ntests).
+(* C20 driver: scenario = [ :con <sink 0|1|2> <verbosity 0|1|2> ] [ :opt <run-ignored 0|1> <passes> ] [ :plug <mock 0|1> <leak 0|1> ] <dur> <nfilters> { <name> } <ntests> { <group> <name> <file> <line> <ignored> <nstmts> { <stmt> } }
+   stmt = :f <file> <line> <msg> | :x <file> <line> <msg> | :S <stage 0..4> | :sep <code 1..3> | :k <kind 2..6> <copies> <stop> <file> <line> <msg>
+        | :e <std 0|1> <what> | :m <name> | :u <name> | :l <size>            (:p <text> is outside the property's domain)
+   (without the :con prefix: sink 0 = printBuffer overridden, quiet; without the :opt prefix: run-ignored off, one pass; without :plug: neither plugin;
+    statements belong to the body until a :S says otherwise)
+   observation = <stream> <n> { <executions of the body of test i in pass p> } <k> { <ordinal of a failure whose text the library composes> }
+   (pass-major, n = passes * ntests; the ordinals are not read by the oracle).
    Extra form (parser differential, no implementation involved): :raw <bytes>; the model answers
    :parsed 0   or   :parsed 1 <nmsgs> { <name> <nattrs> { <key> <value> } }   (checks/C20.py compares this with its own decoder);
    :rawv <bytes> = the same for the message-anywhere reading used for very verbose streams *)
+let kind_of = function
+  | 2 -> K2 | 3 -> K3 | 4 -> K4 | 5 -> KD3 | 6 -> KD2
+  | k -> raise (Bad (Printf.sprintf "failure kind %d" k))
+type st = Stmt of xstmt | Stage of int | Sep of n | Print
 let stmt c =
   match next c with
-  | ":p" -> SPrint (bytes_tok (next c))
-  | ":f" -> let f = bytes_tok (next c) in let l = n_tok (next c) in let m = bytes_tok (next c) in SFail (f, l, m)
-  | ":x" -> let f = bytes_tok (next c) in let l = n_tok (next c) in let m = bytes_tok (next c) in SFailStop (f, l, m)
+  | ":p" -> ignore (next c); Print
+  | ":f" -> let f = bytes_tok (next c) in let l = n_tok (next c) in let m = bytes_tok (next c) in Stmt (XFail (KD3, O, false, f, l, m))
+  | ":x" -> let f = bytes_tok (next c) in let l = n_tok (next c) in let m = bytes_tok (next c) in Stmt (XFail (KD3, O, true, f, l, m))
+  | ":S" -> let k = int_tok (next c) in if k < 0 || k > 4 then raise (Bad "stage") else Stage k
+  | ":sep" -> Sep (n_tok (next c))
+  | ":k" -> let k = kind_of (int_tok (next c)) in let n = nat_tok (next c) in let stop = bool_tok (next c) in
+            let f = bytes_tok (next c) in let l = n_tok (next c) in let m = bytes_tok (next c) in Stmt (XFail (k, n, stop, f, l, m))
+  | ":e" -> let s = bool_tok (next c) in let w = bytes_tok (next c) in Stmt (XThrow (s, w))
+  | ":m" -> Stmt (XExpect (bytes_tok (next c)))
+  | ":u" -> Stmt (XUnexpected (bytes_tok (next c)))
+  | ":l" -> Stmt (XLeak (n_tok (next c)))
   | t -> raise (Bad ("stmt tag " ^ t))
 let test c =
   let g = bytes_tok (next c) in let n = bytes_tok (next c) in let f = bytes_tok (next c) in let l = n_tok (next c) in
-  let ign = bool_tok (next c) in let body = counted c stmt in
-  { t_group = g; t_name = n; t_file = f; t_line = l; t_ignored = ign; t_body = body }
+  let ign = bool_tok (next c) in let items = counted c stmt in
+  let stages = Array.make 5 [] in
+  let cur = ref 2 in let sep = ref (n_tok "0") in
+  List.iter (function
+    | Stmt s -> stages.(!cur) <- s :: stages.(!cur)
+    | Stage k -> cur := k
+    | Sep k -> sep := k
+    | Print -> raise (Bad "scenario outside the property's domain (printing test body)")) items;
+  { x_group = g; x_name = n; x_file = f; x_line = l; x_ignored = ign; x_sep = !sep;
+    x_pre = List.rev stages.(0); x_setup = List.rev stages.(1); x_body = List.rev stages.(2); x_teardown = List.rev stages.(3); x_post = List.rev stages.(4) }
 let scenario c =
   let (sink, verb) =
     if peek c = Some ":con" then (ignore (next c); let k = n_tok (next c) in let v = n_tok (next c) in (k, v)) else (n_tok "0", n_tok "0") in
   let (ri, passes) =
     if peek c = Some ":opt" then (ignore (next c); let r = bool_tok (next c) in let p = int_tok (next c) in (r, p)) else (false, 1) in
+  let (mock, leak) =
+    if peek c = Some ":plug" then (ignore (next c); let m = bool_tok (next c) in let l = bool_tok (next c) in (m, l)) else (false, false) in
   if passes < 0 || passes > 8 then raise (Bad "more than 8 passes");
   let d = n_tok (next c) in let fs = counted c (fun c -> bytes_tok (next c)) in let ts = counted c test in
-  { s_dur = d; s_ri = ri; s_passes = nat_of_int passes; s_filters = fs; s_tests = ts; s_verb = verb; s_sink = sink }
-let pobs o = String.concat " " (pbytes o.o_stream :: Printf.sprintf "%x" (List.length o.o_exec) :: List.map pn o.o_exec)
+  { xs_dur = d; xs_ri = ri; xs_passes = nat_of_int passes; xs_filters = fs; xs_tests = ts; xs_verb = verb; xs_sink = sink; xs_mock = mock; xs_leak = leak }
+let plist l = Printf.sprintf "%x" (List.length l) :: List.map pn l
+let pobs o marks = String.concat " " (pbytes o.o_stream :: (plist o.o_exec @ plist marks))
 let obs_toks os =
   match os with
-  | st :: n :: cs when List.length cs = int_tok n -> Some { o_stream = bytes_tok st; o_exec = List.map n_tok cs }
+  | st :: n :: rest ->
+      let k = int_tok n in
+      if List.length rest < k then None
+      else Some { o_stream = bytes_tok st; o_exec = List.map n_tok (List.filteri (fun i _ -> i < k) rest) }
   | _ -> None
 let pparsed r =
   match r with
@@ -38,10 +68,11 @@ let run_line ts =
   | ":raw" :: b :: _ -> pparsed (parse_result (bytes_tok b))
   | ":rawv" :: b :: _ -> pparsed (parse_result_any (bytes_tok b))
   | _ -> let c = { rest = ts } in let s = scenario c in
-         if not (valid s) then raise (Bad "scenario outside the property's domain (printing test body, number beyond size_t, NUL in a string, unknown sink / verbosity)") else pobs (run s)
+         if not (xvalid s) then raise (Bad "scenario outside the property's domain (number beyond size_t, NUL in a string, unknown sink / verbosity / separate-process code, a leaving statement in a plugin action, mock statements without the mock plugin, an actual call that is expected)")
+         else pobs (xrun s) (xrun_marks s)
 let spec_line ts os =
   match ts with
   | ":raw" :: _ -> true
   | ":rawv" :: _ -> true
   | _ -> let c = { rest = ts } in let s = scenario c in
-         (match obs_toks os with Some o -> spec s o | None -> false)
+         (match obs_toks os with Some o -> xspec s o | None -> false)
